@@ -37,6 +37,7 @@ Conventions of the statements
 -/
 import Rs1090.Proofs.FlarmRoundtrip
 import Rs1090.Proofs.FlarmTrack
+import Rs1090.Gen.HiddenState
 namespace Rs1090.Props.C15
 open Rs1090 Rs1090.Model.Flarm Rs1090.Gen.Flarm Rs1090.Proofs.Flarm
 
@@ -276,5 +277,17 @@ example : (fromRecord F0 1655274034 true 436192400 51175499 (testMsg1.take 25)).
   decide +kernel
 example : (fromRecord F0 1655274034 true 436192400 51175499 (testMsg1 ++ [1, 2, 3])).isOk = true := by
   decide +kernel
+
+/-! ### hidden state (the code side of "is a function of its input") -/
+
+/-- **No hidden state besides the reviewed one** in the files this property is anchored in.  `Flarm::from_record` is modelled as a function of (bytes, time stamp, reference); flarm.rs holds no state at all (the key tables are `const`).
+    The translator lists on every run every construct through which a Rust function can carry state from one
+    call to the next without it showing in its signature (`static`, `thread_local!`, `lazy_static!`,
+    `OnceCell`/`OnceLock`/`Lazy`, `Cell`/`RefCell`/`UnsafeCell`, `Mutex`/`RwLock`, atomics, `unsafe`; whole
+    files, gen/extractors/hidden_state.py); a memo, cache or counter added there breaks this obligation by
+    name, whatever inputs the harness happens to generate. -/
+theorem hidden_state_reviewed :
+    Gen.HiddenState.sitesIn ["decode/flarm.rs"] =
+      [] := by decide
 
 end Rs1090.Props.C15
